@@ -621,6 +621,8 @@ func TestVerif_C40(t *testing.T) {
 	r.Assume("the ModelFS (harness) implements fs.FS faithfully: Stat and ToNode agree; nodes are built like internal/fs builds them, without xattrs/generic attributes",
 		"the chunker polynomial is the fixed test polynomial for all repositories (repository.TestRepositoryWithBackend), i.e. 'same polynomial' holds by construction")
 
+	verifC40Live(t, r)
+
 	edits := verifC40Edits()
 	flagSets := []uint{0, verifC40IgnCtime, verifC40IgnInode, verifC40IgnCtime | verifC40IgnInode}
 	flagName := map[uint]string{0: "none", verifC40IgnCtime: "ignore-ctime", verifC40IgnInode: "ignore-inode", verifC40IgnCtime | verifC40IgnInode: "ignore-ctime+inode"}
